@@ -127,3 +127,8 @@ pub fn make_entry(path: &str, dir: bool, file: bool, link: bool, mode: u32) -> V
     }
     .upcast()
 }
+
+/// A second handle onto the same shared filesystem instance
+pub fn memfs_share(vfs: &Memfs) -> Memfs {
+    vfs.clone()
+}
